@@ -33,6 +33,7 @@ NoAttr == [lab |-> "~", word |-> "~", lemma |-> "~", morph |-> "~", edge |-> "~"
 (* (1) raw graph                                                            *)
 (* G = [ret, root, sid, nodes |-> << [live, par, kids, num, lab, word,      *)
 (*       lemma, morph, edge, head, split, hb, bn] ... >>]                   *)
+(* cm = "T": string fields are character sequences (None = <<"~~">>).      *)
 (* par: 0 = None.  live = "T" iff reachable downwards from the top node     *)
 (* above `ret`.  num: 0 = key absent.                                       *)
 
@@ -73,7 +74,8 @@ WFnodup(G) ==
   /\ \A i \in GLive(G) : Cardinality(GKidSet(G, i)) = Len(GKids(G, i))
   /\ \A i, j \in GLive(G) : i # j => GKidSet(G, i) \cap GKidSet(G, j) = {}
 WFnochildless(G) ==
-  \A i \in GLeaves(G) : G.nodes[i].num > 0 /\ G.nodes[i].word # "~"
+  \A i \in GLeaves(G) : G.nodes[i].num > 0 /\
+     (IF G.cm = "T" THEN G.nodes[i].word # <<"~~">> ELSE G.nodes[i].word # "~")
 WFtokens(G) ==
   LET L == GLeaves(G) IN
   /\ \A i, j \in L : i # j => G.nodes[i].num # G.nodes[j].num
